@@ -84,6 +84,24 @@ class Scratch:
         return out
 
 
+def mir_dump_bin(scratch, bin_name, overflow_checks):
+    """rustc MIR dump of the workspace's root binary crate"""
+    out = os.path.join(scratch.dir, "bin-%s.%s.mir" % (bin_name, "on" if overflow_checks else "off"))
+    if os.path.exists(out):
+        return out
+    os.utime(os.path.join(scratch.repo, "src", "main.rs"), None)
+    t = time.time()
+    cmd = ["cargo", "+" + NIGHTLY, "rustc", "--offline", "--bin", bin_name, "--target-dir", os.path.join(scratch.dir, "target-mir"), "--",
+           "-Zunpretty=mir", "-C", "debug-assertions=off", "-C", "overflow-checks=%s" % ("on" if overflow_checks else "off")]
+    p = run(cmd, cwd=scratch.repo, timeout=1800)
+    if len(p.stdout) < 1000:
+        raise Inconclusive("empty MIR dump for bin %s: %s" % (bin_name, p.stderr[-2000:]))
+    with open(out, "w") as f:
+        f.write(p.stdout)
+    log("  MIR dump bin %s overflow-checks=%s: %d lines, %.1fs" % (bin_name, overflow_checks, p.stdout.count("\n"), time.time() - t))
+    return out
+
+
 def tree_hash(root):
     h = hashlib.sha256()
     for d, dirs, files in sorted(os.walk(root)):
